@@ -564,90 +564,3 @@ fn lookup_local__innermost_latest() {
     kani::cover!(ids[5] == Some(LocalId(q)) && ids[4] == Some(LocalId(q)), "cover: re-declared in the innermost scope");
     std::mem::forget(rt);
 }
-
-// Runtime::local_search_floor + lookup_local_env + lookup_local_mut  (C04: never another activation's instance)
-//   The dynamic scope stack holds, oldest first, the scopes of every live activation; `activations` marks where each activation's
-//   parameter scope sits (V:block_exec:call_prologue / call_epilogue: pushed right after that scope, removed on every way out, so the
-//   bases increase strictly).  A local belongs to the NEWEST activation of the function that owns it:
-//     ensures  the slot found is the innermost slot with that id at or above the parameter scope of the newest activation of owner(local)
-//              (the whole stack for a local of the root function or when the owner has no live activation);
-//              None when there is no such slot there -- EVEN IF an older activation below the mark has one.
-//   (assign_bound_local takes the same floor and the same search; its overwrite goes through the pool and is K:runtime:overwrite_slot__contract.)
-fn local_lookup_case(na: usize, af: [u32; 2], ab: [usize; 2], owner0: u32) {
-    use crate::analysis::facts::{LocalInfo, LocalKind};
-    use crate::analysis::ids::ScopeId;
-    let arena = bk::mk_arena(1);
-    let mut rt = mk_runtime(arena, arena);
-    let mut facts = ProgramFacts::new(arena);
-    // the queried local is local 0 (slot ids are symbolic, so which local is queried is no restriction); its owner is fixed per case so
-    // that the floor is a constant (a symbolic slice start makes the iterator's pointer arithmetic intractable for CBMC)
-    let owners: [u32; 3] = [owner0, kani::any(), kani::any()];
-    kani::assume(owners[1] < 3 && owners[2] < 3);
-    let li = |k: usize| LocalInfo { name: "v", owner: FunctionId(owners[k]), declaring_scope: ScopeId(0), decl_span: SP, decl_stmt: None, kind: LocalKind::Variable };
-    let locals: &'static mut [LocalInfo<'static>; 3] = Box::leak(Box::new([li(0), li(1), li(2)]));
-    facts.locals = unsafe { Vec::from_raw_parts_in(locals.as_mut_ptr(), 3, 3, arena) };
-    rt.facts = Some(NonNull::from(&facts));
-
-    // 3 scopes x 2 slots; slot k (scope k / 2) holds the number k and a symbolic id
-    let ids: [Option<LocalId>; 6] = [any_slot_id(), any_slot_id(), any_slot_id(), any_slot_id(), any_slot_id(), any_slot_id()];
-    let slot = |k: usize| LocalSlot { id: ids[k], name: "v", value: Value::Number(k as f64) };
-    rt.env = leak_vec(vec![
-        leak_vec(vec![slot(0), slot(1)], arena),
-        leak_vec(vec![slot(2), slot(3)], arena),
-        leak_vec(vec![slot(4), slot(5)], arena),
-    ], arena);
-    let marks: &'static mut [(FunctionId, usize); 2] = Box::leak(Box::new([(FunctionId(af[0]), ab[0]), (FunctionId(af[1]), ab[1])]));
-    rt.activations = unsafe { Vec::from_raw_parts_in(marks.as_mut_ptr(), na, 2, arena) };
-
-    let q: u32 = 0;
-    let local = LocalId(q);
-    // specification, written as plain loops: the floor, then the innermost / latest matching slot at or above it
-    let mut floor = 0usize;
-    let mut a = 0;
-    while a < 2 {
-        if a < na && af[a] == owners[q as usize] {
-            floor = ab[a];
-        }
-        a += 1;
-    }
-    let mut want: Option<usize> = None;
-    let mut k = 0;
-    while k < 6 {
-        if k / 2 >= floor && ids[k] == Some(local) {
-            want = Some(k);
-        }
-        k += 1;
-    }
-
-    assert!(rt.local_search_floor(local) == floor, "post: the floor is the parameter scope of the newest activation of the local's owner (0 if none)");
-    let got = rt.lookup_local_env(local).map(|v| match v { Value::Number(n) => *n as usize, _ => 99 });
-    assert!(got == want, "post: lookup returns the innermost slot of the owner's newest activation, None if that activation has not declared it (older activations are not consulted)");
-    let got_mut = rt.lookup_local_mut(local).map(|v| match v { Value::Number(n) => *n as usize, _ => 99 });
-    assert!(got_mut == want, "post: lookup_local_mut finds the same slot");
-    kani::cover!(want.is_none() && (ids[0] == Some(local) || ids[1] == Some(local)), "cover: the oldest scope holds the local but the lookup answers None");
-    kani::cover!(want.is_some(), "cover: found");
-    std::mem::forget(facts);
-    std::mem::forget(rt);
-}
-
-// @harness property=C04 fn=Runtime::local_search_floor+lookup_local_env+lookup_local_mut kind=bounded tier=quick cfg=release timeout=900 domain="bounded: 3 scopes x 2 slots with symbolic local ids (3 locals or none), the queried local owned by root, f1 or f2; activation marks: none / f1 at scope 1 / f1 at scopes 1 and 2 (recursion) / f1 at 1 and f2 at 2 (nested call)"
-#[kani::proof]
-#[kani::unwind(22)]
-fn local_lookup__newest_activation_of_owner() {
-    // every case is a call with CONSTANT marks and owner (see local_lookup_case)
-    let case: u8 = kani::any();
-    match case {
-        0 => local_lookup_case(0, [1, 1], [1, 2], 0),
-        1 => local_lookup_case(0, [1, 1], [1, 2], 1),
-        2 => local_lookup_case(0, [1, 1], [1, 2], 2),
-        3 => local_lookup_case(1, [1, 1], [1, 2], 0),
-        4 => local_lookup_case(1, [1, 1], [1, 2], 1),
-        5 => local_lookup_case(1, [1, 1], [1, 2], 2),
-        6 => local_lookup_case(2, [1, 1], [1, 2], 0),
-        7 => local_lookup_case(2, [1, 1], [1, 2], 1),
-        8 => local_lookup_case(2, [1, 1], [1, 2], 2),
-        9 => local_lookup_case(2, [1, 2], [1, 2], 0),
-        10 => local_lookup_case(2, [1, 2], [1, 2], 1),
-        _ => local_lookup_case(2, [1, 2], [1, 2], 2),
-    }
-}
